@@ -93,8 +93,9 @@ let observe (si : n) (st : n) (files : ((n * n) * byte list) list) =
   match select_files files si with
   | None -> ("verify=err:open readall=err:open tail=-", RAErr CBadType, None)
   | Some sel ->
-    let v = verify si st sel in
-    let (r, sel') = read_all_w si st sel in
+    let d = decode_files sel N0 in
+    let v = verify_dec si st d in
+    let (r, sel') = read_all_w_dec si st sel d in
     let tail = if is_err r then "-" else md5 (string_of_bytes (last_of sel')) in
     let base = Printf.sprintf "verify=%s readall=%s tail=%s" (vres_str v) (res_str r) tail in
     if is_err r then begin
